@@ -2,7 +2,7 @@
 # usage: try_neg.sh <patch.diff> [checks...]: a behaviour-preserving patch is applied to a scratch copy of /repo;
 # every check must stay silent (exit 0).  Prints one summary line plus any alarm.
 P=$(realpath "$1"); shift
-S=$(mktemp -d /tmp/xcm-neg-XXXXXX)
+S=$(mktemp -d /tmp/vfscratch-neg-XXXXXX)
 rsync -a --exclude .git --exclude '*.o' --exclude '*.lo' --exclude '*.la' --exclude .libs --exclude xcmtest --exclude autom4te.cache --exclude test --exclude python --exclude doc /repo/ $S/
 if ! ( cd $S && patch -p1 -s -F3 --no-backup-if-mismatch < "$P" ) > $S.patch.log 2>&1; then echo "$P: PATCH DOES NOT APPLY"; rm -rf $S $S.patch.log; exit 3; fi
 cd /verif
